@@ -114,6 +114,27 @@ def form_lines(st):
         return _L("sim_r%d = await sim_co%d('%s')" % (i, st['ref'], p[0]))
     if f == 'rebindG':
         return _L("G = S.op('%s')" % p[0])
+    if f == 'useG':
+        # reads a name that also exists at module level of the module under test
+        return _L("sim_ug%d = str(G)" % i)
+    if f == 'shadow':
+        # shadows a module-level function of the module under test
+        return _L("simshadow = S.op('%s')" % p[0])
+    if f == 'useshadow':
+        return _L("sim_us%d = str(simshadow)[:6]" % i)
+    if f == 'delconst':
+        return _L("del SIMCONST")
+    if f == 'hasconst':
+        return _L("sim_hc%d = 'SIMCONST' in globals()" % i)
+    if f == 'decoclass':
+        return _L("@S.deco('%s')" % p[0], "class SimK%d:" % i, "    sim_attr = %d" % i)
+    if f == 'decoasync':
+        return _L("@S.deco('%s')" % p[0], "async def sim_ad%d(pid):" % i, "    return await S.aop(pid)")
+    if f == 'decodef2':
+        return _L("@S.deco('%s')" % p[0], "@S.deco('%s')" % p[1], "def sim_dd%d(pid):" % i, "    return S.op(pid)")
+    if f == 'emitop':
+        # called code that prints *and* returns a value
+        return _L("S.emitop('%s')" % p[0])
     if f == 'names':
         return _L("S.names(globals(), '%s')" % p[0])
     if f == 'modglobal':
@@ -133,7 +154,7 @@ def form_lines(st):
 def form_out(st):
     f = st['form']
     p = st.get('pts', [])
-    if f in ('print', 'emit', 'write', 'awaitprint', 'callhelper_emit'):
+    if f in ('print', 'emit', 'write', 'awaitprint', 'callhelper_emit', 'emitop'):
         return [tok(p[0]) + '\n']
     if f == 'say':
         return [st.get('text', 'ok') + '\n']
@@ -151,8 +172,8 @@ def form_out(st):
 
 
 EXPR_FORMS = {'expr', 'print', 'emit', 'say', 'multiline', 'semiemit', 'tqprint', 'callhelper_expr', 'callhelper_emit',
-              'callmod_expr', 'awaitexpr', 'awaitprint', 'names'}
-VALUE_FORMS = {'expr': 0, 'multiline': 0, 'callhelper_expr': 0, 'callmod_expr': 0, 'awaitexpr': 0}
+              'callmod_expr', 'awaitexpr', 'awaitprint', 'names', 'emitop'}
+VALUE_FORMS = {'expr': 0, 'multiline': 0, 'callhelper_expr': 0, 'callmod_expr': 0, 'awaitexpr': 0, 'emitop': 0}
 NOCODE_FORMS = {'comment', 'directive'}
 ASYNC_FORMS = {'await', 'awaitexpr', 'awaitprint', 'gather', 'asyncwith', 'asyncfor', 'awaitco'}
 
@@ -231,6 +252,12 @@ def want_lines_for(st, window_nominal):
         return text.rstrip('\n').split('\n')
     elif w == 'text':
         text = 'SomeWantText%d\n' % st['i']
+    elif w == 'stale':
+        # a want on a statement that writes nothing and has no value, made of
+        # text that was true *earlier* in the same doctest: the repr of an earlier
+        # expression's value, or a line an earlier statement printed
+        sp = st['stale']
+        text = ('<%s>\n' if sp['kind'] == 'repr' else '%s\n') % tok(sp['pid'])
     else:
         raise KeyError(w)
     if not text:
@@ -248,6 +275,16 @@ def want_lines_for(st, window_nominal):
             lines[-1] = 'Wc' + lines[-1]
         else:
             lines.pop()
+    elif wc in ('stale_replace', 'stale_prepend'):
+        # corruption by text that an earlier statement of the same doctest
+        # really produced (and that an earlier want already consumed, or that is
+        # the repr of an earlier value): still not what this statement produced
+        sp = st['stale']
+        old = ('<%s>' if sp['kind'] == 'repr' else '%s') % tok(sp['pid'])
+        if wc == 'stale_replace':
+            lines = [old]
+        else:
+            lines.insert(0, old)
     return lines
 
 
@@ -347,6 +384,7 @@ import asyncio
 import _xdsim as S
 S.importing(%(modname)r)
 G = 'G0-%(short)s'
+SIMCONST = 'C0-%(short)s'
 
 
 class SimLocalError(Exception):
@@ -355,6 +393,10 @@ class SimLocalError(Exception):
 
 def simdeco(func):
     return func
+
+
+def simshadow():
+    return 'module level function'
 
 
 def modhelper1(pid):
